@@ -419,10 +419,10 @@ theorem spav_round {votes : Profile} (hwf : WF votes) (elected : List Cand) :
         | [] => ([] : List Slot)
         | _ => match rv.filter (fun (p : Cand × Rat) => rv.all (fun q => decide (q.2 ≤ p.2))) with
           | [p] => [Slot.cand p.1]
-          | mx => [Slot.tie (mx.map (fun x => x.1))]) =
+          | mx => [Slot.tie (mx.map (fun (x : Cand × Rat) => x.1))]) =
         (match rv.filter (fun (p : Cand × Rat) => rv.all (fun q => decide (q.2 ≤ p.2))) with
           | [p] => [Slot.cand p.1]
-          | mx => [Slot.tie (mx.map (fun x => x.1))]) := by
+          | mx => [Slot.tie (mx.map (fun (x : Cand × Rat) => x.1))]) := by
       cases hh : rv with
       | nil => exact absurd hh hempty
       | cons _ _ => rfl
@@ -463,14 +463,14 @@ theorem spav_round {votes : Profile} (hwf : WF votes) (elected : List Cand) :
       exact this
     rcases hm : rv.filter (fun p => rv.all (fun q => decide (q.2 ≤ p.2))) with _ | ⟨a, _ | ⟨b, r⟩⟩
     · right
-      refine ⟨hrest_ne, ?_, _, rfl⟩
+      refine ⟨hrest_ne, ?_, _, by rw [hm]⟩
       intro c hc
       obtain ⟨v, hv⟩ := toModel c hc
       rw [hm] at hv; cases hv
     · left
-      exact ⟨a.1, hrest_ne, toSpec a hm, rfl⟩
+      exact ⟨a.1, hrest_ne, toSpec a hm, by rw [hm]⟩
     · right
-      refine ⟨hrest_ne, ?_, _, rfl⟩
+      refine ⟨hrest_ne, ?_, _, by rw [hm]⟩
       intro c hc
       obtain ⟨v, hv⟩ := toModel c hc
       rw [hm] at hv; cases hv
@@ -502,9 +502,6 @@ theorem spavGo_eq_spec {votes : Profile} (hwf : WF votes) :
     · rw [h3, h2]
       simp only
       rw [ih]
-      cases hs : standing votes elected with
-      | nil => exact absurd hs h1
-      | cons _ _ => rfl
     · rw [h3]
       cases hs : standing votes elected with
       | nil => exact absurd hs h1
@@ -516,5 +513,78 @@ theorem spavGo_eq_spec {votes : Profile} (hwf : WF votes) :
         · rfl
         · exact absurd hf (h2 a)
         · rfl
+
+end VL.Appr
+
+namespace VL.Appr
+open VL
+
+/-- `c` has strictly greater reweighted approval than every other candidate still standing after `elected` -/
+def StrictBest (votes : Profile) (elected : List Cand) (c : Cand) : Prop :=
+  c ∈ allCands votes ∧ c ∉ elected ∧
+  ∀ d ∈ allCands votes, d ∉ elected → d ≠ c → reweighted votes elected d < reweighted votes elected c
+
+theorem mem_standing {votes : Profile} {elected : List Cand} {c : Cand} :
+    c ∈ standing votes elected ↔ c ∈ allCands votes ∧ c ∉ elected := by
+  unfold standing
+  rw [List.mem_filter]
+  simp
+
+/-- what the defining recursion returns: a chain of strict round winners, as long as requested or until nobody stands -/
+theorem spavSpecGo_sound (votes : Profile) :
+    ∀ (k : Nat) (e0 el : List Cand), spavSpecGo votes k e0 = .ok el →
+      ∃ suf, el = e0 ++ suf ∧
+        (∀ i (h : i < suf.length), StrictBest votes (e0 ++ suf.take i) suf[i]) ∧
+        (suf.length = k ∨ standing votes el = []) := by
+  intro k
+  induction k with
+  | zero =>
+    intro e0 el h
+    simp only [spavSpecGo] at h
+    injection h with h
+    exact ⟨[], by simp [h], by simp, Or.inl rfl⟩
+  | succ k ih =>
+    intro e0 el h
+    unfold spavSpecGo at h
+    simp only at h
+    change (match standing votes e0 with
+      | [] => Except.ok e0
+      | _ => match (standing votes e0).filter (fun c => (standing votes e0).all
+            (fun d => decide (reweighted votes e0 d ≤ reweighted votes e0 c))) with
+        | [c] => spavSpecGo votes k (e0 ++ [c])
+        | _ => Except.error Err.notImplemented) = Except.ok el at h
+    cases hs : standing votes e0 with
+    | nil =>
+      rw [hs] at h
+      injection h with h
+      subst h
+      exact ⟨[], by simp, by simp, Or.inr hs⟩
+    | cons x xs =>
+      rw [hs] at h
+      simp only at h
+      rw [← hs] at h
+      rcases hf : (standing votes e0).filter (fun c => (standing votes e0).all
+            (fun d => decide (reweighted votes e0 d ≤ reweighted votes e0 c))) with _ | ⟨c, _ | ⟨b, r⟩⟩
+      · rw [hf] at h; cases h
+      · rw [hf] at h
+        simp only at h
+        obtain ⟨suf, hel, hchain, hlen⟩ := ih _ _ h
+        obtain ⟨hc1, hc2⟩ := (argmax_singleton_iff (standing_nodup votes e0) (fun d => reweighted votes e0 d)).mp hf
+        refine ⟨c :: suf, by rw [hel]; simp, ?_, ?_⟩
+        · intro i hi
+          cases i with
+          | zero =>
+            simp only [List.take_zero, List.append_nil, List.getElem_cons_zero]
+            have := mem_standing.mp hc1
+            refine ⟨this.1, this.2, ?_⟩
+            intro d hd hde hne
+            exact hc2 d (mem_standing.mpr ⟨hd, hde⟩) hne
+          | succ i =>
+            have := hchain i (by simpa using hi)
+            simpa [List.take_succ_cons, List.append_assoc] using this
+        · rcases hlen with hl | hl
+          · left; simp [hl]
+          · right; exact hl
+      · rw [hf] at h; cases h
 
 end VL.Appr
